@@ -13,6 +13,25 @@ def ground_unit(name, fn):
     return Unit("ground", name, fn=fn)
 
 
+def decode_path_units(tier):
+    """'Every valid frame is returned / parses': a frame whose payload is complete for its type's layout constructs - the decode walk
+    raises only where the reference interpreter R fails (payload too short), the MSM maps raise nothing, unknown types give a stub."""
+    from spec import msm
+    Mq = "pyrtcm.rtcmmessage.RTCMMessage"
+    us = []
+    us += func_units(Mq + "._get_dict", tier)
+    us += func_units(Mq + ".identity", tier)
+    us += func_units(Mq + "._do_attributes", tier, only=lambda inst: inst["identity"].startswith("unknown"))
+    us += func_units(Mq + ".__init__", tier)
+    us += func_units(Mq + "._set_attribute_single", tier)
+    us += func_units(Mq + "._getsatcellmaps", tier)
+    for q in ("_set_attribute", "_set_attribute_group", "_set_attribute_optional"):
+        us += func_units(f"{Mq}.{q}", tier)
+    us += func_units(Mq + "._do_attributes", tier, only=lambda inst: not inst["identity"].startswith("unknown"))
+    us.append(lemma_unit("msm.fold_lemmas", msm.fold_lemmas))
+    return us
+
+
 # obligations of the SocketWrapper contracts that speak about progress / completeness, not about WHICH bytes are handed out
 SOCKET_LIVENESS = ("variant_", "short_only_after_failed_receive", "true_means_segment_appended", "no_complete_chunk_left_in_partial",
                    "ends_at_first_LF_or_stopped_on_empty_read", "recv.pre.bufsize_positive")
